@@ -86,3 +86,8 @@ claim("C10", "model-based testing of operation histories (Hypothesis-generated l
       "explicit Loader=/Dumper=, YAMLObject subclasses with class/list loaders); after every step every class's effective table for every registry kind must equal the model's, no two owners may share a "
       "table object or a per-character resolver list, and every few steps the winner of probe loads / dumps / resolutions must be the one the rule predicts for every class.",
       "Trusted: vlib/registry_model.py. Histories share one process; the shipped classes' registries are restored and fingerprint-checked after each history.")
+claim("C11", "history-based testing: Hypothesis-generated call sequences run in children forked from a pristine process, compared step by step with the same call run alone, plus a digest of all package-level state; metamorphic stream-vs-single-document relation",
+      "Generated histories (up to 30 steps, plus same-item focused histories) over ~200 public calls x a pool of valid and failing inputs, values, event lists, generators abandoned after k items, both back-ends and user "
+      "subclasses with path resolvers; every step's outcome must equal the outcome of that call in its own pristine child and the digest of every module/class-level container of the package must not change. "
+      "Streams of 2-5 generated documents must parse/compose/load item-wise like the documents alone; handles, anchors, %YAML and alias numbering must not carry over to the next document.",
+      "Trusted: os.fork from a process that imported yaml but never called it as a stand-in for a fresh interpreter; the digest in vlib/c11_pool.py (state hidden inside C objects or closures is not seen by it, only by outcomes).")
